@@ -4,6 +4,7 @@ import (
 	"fmt"
 	"go/token"
 	"go/types"
+	"os"
 	"sort"
 	"strings"
 
@@ -25,15 +26,15 @@ import (
 // (c) every loop driven by script or witness data has a strictly advancing, input-bounded variant.
 
 var c01TotalExceptions = map[string]string{
-	"depth|lib/script.VerifyTxScript|pop|stack":                                                                         "P2SH: stackCopy is non-empty here because a pay-to-script-hash scriptPubKey (HASH160 <20> EQUAL) evaluated on an empty stack fails in OP_HASH160, so the scriptPubKey evaluation above already returned false (the same argument as the assert in Bitcoin Core's VerifyScript)",
-	"panic|lib/script.VerifyTxScript|VER_CLEANSTACK without VER_P2SH":                                                   "inconsistent flag set, excluded by the property's quantifier (flag sets satisfy Core's dependencies)",
-	"panic|lib/script.VerifyTxScript|VER_WITNESS must be used with P2SH":                                                "inconsistent flag set, excluded by the property's quantifier",
-	"bounds|lib/script.evalScript|alloc|make([][]byte, n)":                                                              "OP_ROLL: n < stack.size() is tested just before, and the combined stack size is kept <= 1000 by the test after every opcode (R-C01-rules) and by the tapscript initial-stack rule",
-	"bounds|lib/script.evalScript|progress|loop (phi:i >= 0)":                                                           "OP_ROLL: counts down from n-1 with n < stack.size() <= 1000",
-	"bounds|(*lib/script.scrStack).pushInt|progress|loop (phi:val != 0)":                                                "shifts a value right by 8 bits per iteration; the values pushed are results of arithmetic on at most 4-byte (CHECKSIGADD: 4-byte plus one) script numbers, so |val| < 2^33 and the negation above cannot overflow",
-	"bounds|(*lib/script.scrStack).copy_from|index|s.data[i]":                                                           "s.data was allocated two lines above with len(x.data) and i ranges over x.data",
-	"bounds|lib/script.VerifyTxScript|index|tx.SegWit[i]":                                                               "i is SigChecker.Idx, set by the callers to the index of an existing input; Tx.SegWit, when not nil, has one entry per input (btc.NewTx)",
-	"bounds|(*lib/script.SigChecker).ExecuteWitnessScript|progress|loop (phi:i < (*lib/script.scrStack).size(param#1))": "i counts up to the number of witness items, which is bounded by the transaction size",
+	"depth|lib/script.VerifyTxScript|pop|stack#0":                                                                     "P2SH: stackCopy is non-empty here because a pay-to-script-hash scriptPubKey (HASH160 <20> EQUAL) evaluated on an empty stack fails in OP_HASH160, so the scriptPubKey evaluation above already returned false (the same argument as the assert in Bitcoin Core's VerifyScript)",
+	"panic|lib/script.VerifyTxScript|VER_CLEANSTACK without VER_P2SH":                                                 "inconsistent flag set, excluded by the property's quantifier (flag sets satisfy Core's dependencies)",
+	"panic|lib/script.VerifyTxScript|VER_WITNESS must be used with P2SH":                                              "inconsistent flag set, excluded by the property's quantifier",
+	"bounds|lib/script.evalScript|alloc|make((*lib/script.scrStack).popInt(param#1, ((param#3 & 64) != 0)))":          "OP_ROLL: n < stack.size() is tested just before, and the combined stack size is kept <= 1000 by the test after every opcode (R-C01-rules) and by the tapscript initial-stack rule",
+	"bounds|lib/script.evalScript|progress|loop (phi >= 0)":                                                           "OP_ROLL: counts down from n-1 with n < stack.size() <= 1000",
+	"bounds|(*lib/script.scrStack).pushInt|progress|loop (phi != 0)":                                                  "shifts a value right by 8 bits per iteration; the values pushed are results of arithmetic on at most 4-byte (CHECKSIGADD: 4-byte plus one) script numbers, so |val| < 2^33 and the negation above cannot overflow",
+	"bounds|(*lib/script.scrStack).copy_from|index|param#0.data[(phi + 1)]":                                           "s.data was allocated two lines above with len(x.data) and i ranges over x.data",
+	"bounds|lib/script.VerifyTxScript|index|param#1.Tx.SegWit[param#1.Idx]":                                           "i is SigChecker.Idx, set by the callers to the index of an existing input; Tx.SegWit, when not nil, has one entry per input (btc.NewTx)",
+	"bounds|(*lib/script.SigChecker).ExecuteWitnessScript|progress|loop (phi < (*lib/script.scrStack).size(param#1))": "i counts up to the number of witness items, which is bounded by the transaction size",
 }
 
 func c01Total(r *core.Run, p *core.Program, ev *ssa.Function) {
@@ -110,9 +111,12 @@ func c01Total(r *core.Run, p *core.Program, ev *ssa.Function) {
 				r.OK(rule, key+"@"+ob.ord, ob.pos, fmt.Sprintf("%s on %s with at least %d element(s)", ob.op, ob.obj, ob.have))
 				continue
 			}
-			if why, ok := except(key); ok {
+			if why, ok := except(fmt.Sprintf("depth|%s|%s|%s", core.FuncName(f), ob.op, ob.cobj)); ok {
 				r.OK(rule, key+"@"+ob.ord, ob.pos, "excepted: "+why)
 				continue
+			}
+			if os.Getenv("GCV_DBGKEYS") != "" {
+				fmt.Println("CKEY", fmt.Sprintf("depth|%s|%s|%s", core.FuncName(f), ob.op, ob.cobj))
 			}
 			r.Fail(rule, key+"@"+ob.ord, ob.pos, fmt.Sprintf("%s on stack %s needs %d element(s) but only %d are guaranteed on some path", ob.op, ob.obj, ob.need, ob.have))
 		}
@@ -128,6 +132,7 @@ func c01Total(r *core.Run, p *core.Program, ev *ssa.Function) {
 	nb := 0
 	type agg struct {
 		key, pos string
+		ckey     string // the same with the construct rendered canonically (independent of local names)
 		proven   bool
 		need     []string
 		chain    string
@@ -148,6 +153,10 @@ func c01Total(r *core.Run, p *core.Program, ev *ssa.Function) {
 		g := groups[key+"@"+pos]
 		if g == nil {
 			g = &agg{key: key, pos: pos, proven: true, chain: strings.Join(ob.Chain, " > ")}
+			g.ckey = fmt.Sprintf("bounds|%s|%s|%s", fnn, ob.Kind, an.CanonInstr(ob.Instr))
+			if ob.Kind == "progress" {
+				g.ckey = fmt.Sprintf("bounds|%s|%s|loop %s", fnn, ob.Kind, an.CanonInstr(ob.Instr))
+			}
 			groups[key+"@"+pos] = g
 			gorder = append(gorder, key+"@"+pos)
 		}
@@ -163,9 +172,12 @@ func c01Total(r *core.Run, p *core.Program, ev *ssa.Function) {
 			r.OK(rule, gk, g.pos, "bounds entailed by the dominating guards")
 			continue
 		}
-		if why, ok := except(g.key); ok {
+		if why, ok := except(g.ckey); ok {
 			r.OK(rule, gk, g.pos, "excepted: "+why)
 			continue
+		}
+		if os.Getenv("GCV_DBGKEYS") != "" {
+			fmt.Println("CKEY", g.ckey)
 		}
 		r.Fail(rule, gk, g.pos, fmt.Sprintf("cannot prove %s [%s]", strings.Join(g.need, "; "), g.chain))
 	}
@@ -190,6 +202,7 @@ func usesScrStack(f *ssa.Function) bool {
 
 type depthOb struct {
 	op, obj, pos, ord string
+	cobj              string // the stack object named by kind and order of declaration, not by its source name
 	need, have        int
 	ok                bool
 }
@@ -209,6 +222,26 @@ func c01StackDepth(p *core.Program, fn *ssa.Function) []depthOb {
 			return an.Path(x)
 		}
 		return ""
+	}
+	// canonical names: local stacks in order of declaration, parameters by position
+	cnames := map[string]string{}
+	nloc := 0
+	an.Instrs(fn, func(i ssa.Instruction) {
+		if a, ok := i.(*ssa.Alloc); ok && strings.HasSuffix(an.TypeName(an.Deref(a.Type())), "script.scrStack") {
+			cnames[objOf(a)] = fmt.Sprintf("stack#%d", nloc)
+			nloc++
+		}
+	})
+	for i, q := range fn.Params {
+		if strings.HasSuffix(an.TypeName(an.Deref(q.Type())), "script.scrStack") {
+			cnames[objOf(q)] = fmt.Sprintf("param#%d", i)
+		}
+	}
+	cname := func(obj string) string {
+		if c, ok := cnames[obj]; ok {
+			return c
+		}
+		return obj
 	}
 	isStackPtr := func(v ssa.Value) bool { return an.TypeName(v.Type()) == "lib/script.scrStack" }
 	type state map[string]int
@@ -297,7 +330,7 @@ func c01StackDepth(p *core.Program, fn *ssa.Function) []depthOb {
 						need = -2
 					}
 					if need != 0 && record {
-						ob := depthOb{op: m, obj: obj, pos: p.Pos(an.InstrPos(ins)), need: need, have: s[obj]}
+						ob := depthOb{op: m, obj: obj, cobj: cname(obj), pos: p.Pos(an.InstrPos(ins)), need: need, have: s[obj]}
 						switch {
 						case need == -2:
 							ob.need = 1
